@@ -185,6 +185,7 @@ func (s *BaseSeeder) readerLoop() {
 				session.senderI = int(s.sessionsCounter % uint32(s.cfg.SenderThreads))
 				sessions = append(sessions, op.request.Session.ID)
 				s.peerSessions[op.peer.ID] = sessions
+				s.sessions[sessionKey] = session
 				s.sessionsCounter++
 			}
 
